@@ -58,7 +58,7 @@ public:
     for (int i = 0; i < n; i++) {
       Json c = Json::obj();
       int type = (int)rng.below(4);
-      size_t len = rng.chance(200) ? (size_t)rng.range(16000, 70000) : (size_t)rng.below(200);
+      size_t len = rng.chance(200) ? (size_t)rng.range(16000, 70000) : rng.chance(100) ? 0 : (size_t)rng.below(200);   // empty objects are common in practice
       std::string content;
       // text, or binary with NUL bytes (object files, images), or a leading NUL
       int alphabet = (int)rng.below(3);
@@ -99,7 +99,9 @@ public:
       for (int mode = 0; mode < 3; mode++) {
         auto fs = makeFs(mode);
         materialise(path, a);
-        bool link = a.type == 3 && (idx % 2 == 0);
+        // link information (lstat-based) is an observation too: of the link itself for a symbolic link, and of the object
+        // for anything else
+        bool link = a.type == 3 ? (idx % 2 == 0) : (idx % 4 == 0);
         FileInfo before = link ? fs->getLinkInfo(path) : fs->getFileInfo(path);
         // ---- the mutation
         State b = a;
@@ -153,7 +155,7 @@ public:
           b.type = (int)c.getn("newtype");
           // a followed symlink to a file IS a file as far as the observation goes
           auto eff = [](int t) { return t == 3 ? 1 : t; };
-          if (b.type == a.type || link || eff(b.type) == eff(a.type)) applicable = false;
+          if (b.type == a.type || (link && a.type == 3) || (!link && eff(b.type) == eff(a.type))) applicable = false;
           else {
             materialise(path, b);
             sameType = false;
@@ -190,7 +192,7 @@ public:
         evh.u64((uint64_t)mode);
         evh.u64(equal);
         res.counters[std::string("pairs_") + modeName[mode]]++;
-        std::string who = std::string("mode ") + modeName[mode] + ", " + (a.type == 0 ? "missing" : a.type == 1 ? "file" : a.type == 2 ? "directory" : link ? "symlink (link info)" : "symlink (followed)") +
+        std::string who = std::string("mode ") + modeName[mode] + ", " + (a.type == 0 ? "missing" : a.type == 1 ? "file" : a.type == 2 ? "directory" : link ? "symlink (link info)" : "symlink (followed)") + (link && a.type != 3 ? " (link info)" : "") +
                           ", mutation " + mut + " (case " + std::to_string(idx) + ")";
         auto viol = [&](const std::string& clause, const std::string& msg) {
           if (res.failed()) return;
